@@ -62,6 +62,27 @@ Theorem C14_map_json_exception : forall T f k v i,
   type_ident T (S f) i = Some json_map_ty.
 Proof. exact map_json_exception. Qed.
 
+(* the exception needs BOTH tests: constrained keys (propertyNames -> newtype / enum / native key
+   type) keep the configured map type and their key type even when the value is JsonValue, in
+   the type spelling and in the is_empty path *)
+Theorem C14_map_constrained_keys_use_map_type : forall T f k v dk a b,
+  get_det T k = Some dk -> dk <> DString -> get_det T v <> None ->
+  type_ident T f k = Some a -> type_ident T f v = Some b ->
+  (forall i, get_det T i = Some (DMap k v) ->
+     type_ident T (S f) i = Some (map_path T ++ u "<" ++ a ++ u "," ++ b ++ u ">")) /\
+  (forall p, p_state p = POptional -> get_det T (p_ty p) = Some (DMap k v) ->
+     skip_path T p = map_path T ++ u "::is_empty").
+Proof. exact map_constrained_keys_use_map_type. Qed.
+
+(* ... and serde_json::Map<String, Value> is spelled only for key = String and value = JsonValue
+   (or when the configured map type and the member spellings happen to concatenate to that text) *)
+Theorem C14_json_map_only_string_any : forall T f i k v,
+  get_det T i = Some (DMap k v) -> type_ident T (S f) i = Some json_map_ty ->
+  (get_det T k = Some DString /\ get_det T v = Some DJsonValue) \/
+  (exists a b, type_ident T f k = Some a /\ type_ident T f v = Some b /\
+               map_path T ++ u "<" ++ a ++ u "," ++ b ++ u ">" = json_map_ty).
+Proof. exact json_map_only_string_any. Qed.
+
 Theorem C14_map_is_empty_path : forall T p k v,
   p_state p = POptional -> get_det T (p_ty p) = Some (DMap k v) ->
   skip_path T p = if is_json_map T k v then u "::serde_json::Map::is_empty" else map_path T ++ u "::is_empty".
